@@ -124,6 +124,28 @@ def c_fentry(e):
     return f'(FTriple {c_optz(e[1])} {c_optz(e[2])} {c_optz(e[3])})'
 
 
+XOPS = ('addx', 'mapx', 'newfrom', 'chg', 'upd')
+
+
+def c_xop(op):
+    """an operation of the full alphabet as a Gallina `xop`"""
+    k = op[0]
+    if k == 'addx':
+        return f'(XAddShared {int(op[1])} {c_bool(op[2])} {c_ref(op[3])} {c_z(op[4])})'
+    if k == 'mapx':
+        models = 'None' if op[3] is None else f'(Some {c_list(op[3])})'
+        al = op[4]
+        als = 'ANone' if al is None else (f'(AStr {c_z(al[1])})' if al[0] == 's' else f'(ASeq {c_list(al[1])})')
+        return f'(XMapShared {c_ref(op[1])} {c_z(op[2])} {models} {als})'
+    if k == 'newfrom':
+        return f'(XNewFrom {c_ref(op[1])})'
+    if k == 'chg':
+        return f'(XChangeFixed {c_ref(op[1])} {c_z(op[2])} {c_z(op[3])})'
+    if k == 'upd':
+        return f'(XUpdateCache {c_ref(op[1])})'
+    return f'(XBase {c_op(op)})'
+
+
 def c_op(op):
     k = op[0]
     if k == 'new':
@@ -173,6 +195,9 @@ def norm_op(op):
         op[2] = [(a, None if b is None else tuple(b)) for a, b in op[2]]
     elif k == 'union':
         op[1] = list(op[1])
+    elif k == 'mapx':
+        op[3] = None if op[3] is None else list(op[3])
+        op[4] = None if op[4] is None else (op[4][0], op[4][1] if op[4][0] == 's' else list(op[4][1]))
     return tuple(op)
 
 
@@ -191,6 +216,9 @@ class PyWorld:
         self.sets = []
         self.label = {}        # id(Parameter) -> allocation number (= location of the model)
         self.keep = []         # keeps every labelled object alive so that ids stay unique
+        self.user_shared = set()   # id(Parameter) handed by the CALLER to a second owner (add_param(p), map_param(p), ...)
+        self.taint = set()         # id(ParameterSet) holding a caller-shared object that was edited through another set
+        self.dirty = set()         # id(ParameterSet) holding an object changed by change_fixed_value, cache not yet updated
 
     def get(self, r):
         return self.pmm.global_paramset if r == 'G' else self.sets[r]
@@ -222,8 +250,28 @@ class PyWorld:
                 out.append(Model(f'foreign{i}'))
         return out
 
+    def _edited_through(self, s, rebuilt):
+        """bookkeeping for the known finding: the caller-shared objects of s were (possibly) edited through s"""
+        ids = {id(p) for p in s.params} & self.user_shared
+        if ids:
+            for t in self.all_sets():
+                if t is not s and any(id(p) in ids for p in t.params):
+                    self.taint.add(id(t))
+        # (a later make_params_* through the stale owner does not repair it: the rebuild loop re-reads
+        # isfixed of the objects for the name lists but leaves the mask of the unrequested ones alone)
+
     def apply(self, op):
         """returns the name of the raised exception or None"""
+        k = op[0]
+        err = self._apply(op)
+        valid = len(op) > 1 and (op[1] == 'G' or (isinstance(op[1], int) and 0 <= op[1] < len(self.sets)))
+        if k in ('fix', 'float') and valid:
+            self._edited_through(self.get(op[1]), err is None)
+        elif k == 'setv' and valid:
+            self._edited_through(self.get(op[1]), False)
+        return err
+
+    def _apply(self, op):
         from skyllh.core.parameters import ParameterSet
         k = op[0]
         try:
@@ -286,12 +334,48 @@ class PyWorld:
                         self._alloc(p)
                 self.sets.append(u)
             elif k == 'copy':
-                c = self.get(op[1]).copy()
+                src = self.get(op[1])
+                c = src.copy()
                 for p in c.params:
                     self._alloc(p)
+                # a deep copy of a set in a state covered by a known finding is in that state too (caches are copied)
+                if id(src) in self.taint:
+                    self.taint.add(id(c))
+                if id(src) in self.dirty:
+                    self.dirty.add(id(c))
                 self.sets.append(c)
             elif k == 'setv':
                 self.get(op[1]).params[op[2]].value = self._f(op[3])
+            elif k == 'addx':
+                s = self.sets[op[1]]
+                p = self.get(op[3]).params[op[4]]
+                s.add_param(p, atfront=op[2])
+                self.user_shared.add(id(p))
+            elif k == 'mapx':
+                p = self.get(op[1]).params[op[2]]
+                models = None if op[3] is None else self._model_objs(op[3])
+                al = op[4]
+                names = None if al is None else (nm(al[1]) if al[0] == 's' else [nm(a) for a in al[1]])
+                self.pmm.map_param(p, models=models, model_param_names=names)
+                self.user_shared.add(id(p))
+            elif k == 'newfrom':
+                src = self.get(op[1])
+                t = ParameterSet(params=list(src.params))
+                for p in t.params:
+                    self.user_shared.add(id(p))
+                self.sets.append(t)
+            elif k == 'chg':
+                p = self.get(op[1]).params[op[2]]
+                try:
+                    p.change_fixed_value(self._f(op[3]))
+                finally:
+                    for t in self.all_sets():
+                        if any(q is p for q in t.params):
+                            self.dirty.add(id(t))
+            elif k == 'upd':
+                t = self.get(op[1])
+                t.update_fixed_param_value_cache()
+                self.dirty.discard(id(t))
             else:
                 raise AssertionError(op)
         except Exception as ex:     # noqa: BLE001 - the kind of exception is the observation
@@ -506,6 +590,8 @@ class Ref:
     def apply(self, op):
         k = op[0]
         nmod = len(self.src)
+        if k in XOPS:
+            return 'undocumented', None
         if k == 'new':
             return 'legal', ('append', [])
         if k == 'add':
@@ -719,10 +805,9 @@ def check_set_views(s, where, bad):
     return T, fx, fl, vec
 
 
-def check_map_views(w, bad):
+def check_map_views(w, bad, where='ParameterModelMapper'):
     """every view of the real mapper against the brute-force reading of (Parameter objects, alias matrix)"""
     pmm = w.pmm
-    where = 'ParameterModelMapper'
     g = pmm.global_paramset
     T = table_of(g)
     fl = [e for e in T if not e.fixed]
@@ -833,21 +918,40 @@ def check_sharing(w, bad):
     seen = {}
     for si, s in enumerate(w.all_sets()):
         for p in s.params:
+            if id(p) in w.user_shared:
+                continue        # put there by the caller (add_param(p) / map_param(p) / ParameterSet(params))
             if id(p) in seen and seen[id(p)] != si:
                 bad.append(('ParameterSet', 'parameter-object-shared-between-sets', repr((seen[id(p)], si, p.name)), ''))
             seen[id(p)] = si
 
 
+SHARED_SIG = ('ParameterSet.add_param / ParameterSet(params) / map_param (Parameter object shared by the caller)',
+              'views-stale-after-edit-through-the-other-owner')
+STALE_SIG = ('Parameter.change_fixed_value', 'fixed-value-cache-stale-until-update_fixed_param_value_cache')
+
+
+def excuse(w, s):
+    """'[shared]' / '[stale]' when the set is in a state covered by one of the two OPEN known findings"""
+    if id(s) in w.taint:
+        return '[shared]'
+    if id(s) in w.dirty:
+        return '[stale]'
+    return ''
+
+
 def predicates(ctx, case, w, ref, step, op, err, before):
     """the property evaluated on the implementation after one step"""
     bad = []
-    check_map_views(w, bad)
-    check_set_views(w.pmm.global_paramset, 'ParameterSet', bad)
+    g = w.pmm.global_paramset
+    check_map_views(w, bad, 'ParameterModelMapper' + excuse(w, g))
+    check_set_views(g, 'ParameterSet' + excuse(w, g), bad)
     for s in w.sets:
-        check_set_views(s, 'ParameterSet', bad)
+        check_set_views(s, 'ParameterSet' + excuse(w, s), bad)
     check_sharing(w, bad)
     now = impl_keys(w)
     verdict, upd = ref.apply(op)
+    if w.user_shared or w.dirty:
+        verdict = 'undocumented'        # the value-level reference table does not speak about shared objects
     ctx.count('ref:' + verdict)
     if err is not None and now != before:
         bad.append((op[0], 'state-changed-by-rejected-operation', repr(now)[:300], repr(before)[:300]))
@@ -868,7 +972,11 @@ def predicates(ctx, case, w, ref, step, op, err, before):
         if err is None:
             ref.adopt(w)
     for (site, kind, got, want) in bad:
-        ctx.violation(site if site in ('ParameterSet', 'ParameterModelMapper') else 'op:' + site, kind,
+        if site.endswith('[shared]'):
+            site, kind, got = SHARED_SIG[0], SHARED_SIG[1], f'{kind}: {got}'
+        elif site.endswith('[stale]'):
+            site, kind, got = STALE_SIG[0], STALE_SIG[1], f'{kind}: {got}'
+        ctx.violation(site if site in ('ParameterSet', 'ParameterModelMapper', SHARED_SIG[0], STALE_SIG[0]) else 'op:' + site, kind,
                       f'step {step} {op!r}: got {got} want {want}',
                       case={'src': case['src'], 'nz': case.get('nz', False), 'ops': [list(o) for o in case['ops'][:step + 1]]},
                       impl=got, predicate=kind)
@@ -963,6 +1071,8 @@ def flat_any(x):
 def check_twins(w, bad):
     """mutate-then-observe: every set and the mapper against a freshly constructed twin with the same state"""
     for si, s in enumerate(w.all_sets()):
+        if excuse(w, s):
+            continue
         try:
             t = twin_set(s)
         except Exception as ex:     # noqa: BLE001
@@ -971,6 +1081,8 @@ def check_twins(w, bad):
         a, b = set_face(w, s), set_face(w, t)
         if a != b:
             bad.append(('ParameterSet', 'differs-from-freshly-constructed-twin', _first_diff(a, b), f'set {si}'))
+    if excuse(w, w.pmm.global_paramset):
+        return
     try:
         tw = _W(twin_mapper(w), w.models)
     except Exception as ex:     # noqa: BLE001
@@ -1166,8 +1278,8 @@ def run_impl(ctx, case, mode):
 
 def model_expr(case, mode):
     src = c_list(case['src'], c_bool)
-    ops = c_list(case['ops'], c_op)
-    f = 'obs_trace' if mode == 'trace' else 'obs_last'
+    ops = c_list(case['ops'], c_xop)
+    f = 'xobs_trace' if mode == 'trace' else 'xobs_last'
     return f'{f} {src} {ops} {c_list(PROBE)}'
 
 
@@ -1240,7 +1352,7 @@ def gen_value_for(rng, e, ctx, tag):
     return rng.choice([e.lo - 7, e.hi + 9])
 
 
-def gen_ops(ctx, rng, src, length):
+def gen_ops(ctx, rng, src, length, xops=False):
     """a mostly-valid operation sequence; the state needed to pick meaningful arguments is tracked with the
     reference table (which is only used to choose arguments here)"""
     ref = Ref(src)
@@ -1252,10 +1364,38 @@ def gen_ops(ctx, rng, src, length):
         full = [r for r in refs if ref.table(r)]
         pick = (lambda: rng.choice(full) if full and rng.random() < 0.9 else rng.choice(refs))   # noqa: E731
         kinds = ['map'] * 5 + ['fix'] * 4 + ['float'] * 4 + ['setv'] * 3 + ['copy', 'union', 'union', 'new', 'add', 'add', 'add']
+        if xops:
+            # the rest of the public API: caller-shared objects, change_fixed_value / update cache
+            kinds = kinds + ['addx', 'addx', 'mapx', 'newfrom', 'chg', 'chg', 'upd', 'upd']
         k = rng.choice(kinds)
-        if k == 'add' and not ref.sets:
+        if k in ('add', 'addx') and not ref.sets:
             k = 'new'
-        if k == 'new':
+        if k in ('addx', 'mapx', 'chg') and not full:
+            k = 'map'
+        if k == 'addx':
+            r = rng.choice(full)
+            op = ('addx', rng.randrange(len(ref.sets)), rng.random() < 0.5, r, rng.randrange(len(ref.table(r))))
+            ctx.count('xop:addx')
+        elif k == 'mapx':
+            r = rng.choice(full)
+            models = None if rng.random() < 0.5 else sorted(rng.sample(range(nmod), rng.randint(1, nmod)))
+            al = rng.choice([None, ('s', rng.choice(LNAMES))])
+            op = ('mapx', r, rng.randrange(len(ref.table(r))), models, al)
+            ctx.count('xop:mapx')
+        elif k == 'newfrom':
+            op = ('newfrom', rng.choice(refs))
+            ctx.count('xop:newfrom')
+        elif k == 'chg':
+            r = rng.choice(full)
+            t = ref.table(r)
+            fixed = [j for j, e in enumerate(t) if e.fixed]
+            j = rng.choice(fixed) if fixed and rng.random() < 0.85 else rng.randrange(len(t))
+            op = ('chg', r, j, rng.choice([0, 3, -7, BIG, t[j].value]))
+            ctx.count('xop:chg')
+        elif k == 'upd':
+            op = ('upd', rng.choice(refs))
+            ctx.count('xop:upd')
+        elif k == 'new':
             op = ('new',)
         elif k == 'add':
             n = rng.randrange(len(ref.sets)) if rng.random() < 0.95 else len(ref.sets)
@@ -1419,6 +1559,17 @@ def corpus_cases():
                  ('float', 'G', [(0, ('t', 0, -1, 6))]), ('fix', 'G', [(0, 0)]), ('float', 'G', [(0, ('t', 3, 0, 4))]),
                  ('fix', 'G', [(0, None)]), ('float', 'G', [(0, ('i', 0))]), ('setv', 'G', 0, 0),
                  ('fix', 'G', [(0, 7)]), ('float', 'G', [(0, ('t', 0, 0, None))]), ('union', ['G']), ('copy', 0)]},
+        # OPEN finding C04-shared-parameter: an existing Parameter object handed to a second owner
+        {'src': [True, False], 'ops': [('new',), ('add', 0, False, fl(0)), ('add', 0, False, fx(1)), ('new',),
+                                       ('addx', 1, False, 0, 0), ('newfrom', 0), ('mapx', 0, 1, None, ('s', 4)),
+                                       ('fix', 0, [(0, 7)]), ('float', 'G', [(1, ('t', 1, 0, 2))]), ('fix', 1, [(0, None)]),
+                                       ('setv', 'G', 0, 2), ('copy', 2), ('union', [1, 2]), ('float', 2, [(0, ('t', 1, 0, 3))]),
+                                       ('addx', 1, True, 0, 1), ('addx', 1, True, 0, 1), ('addx', 5, True, 0, 1), ('addx', 1, True, 0, 7)]},
+        # OPEN finding C04-change-fixed-value: the two-step protocol change_fixed_value / update_fixed_param_value_cache
+        {'src': [True, True], 'ops': [('map', fx(0, 5), None, None), ('map', fl(1), [1], ('s', 4)), ('map', fx(2, 3), [0], ('s', 4)),
+                                      ('chg', 'G', 0, 9), ('upd', 'G'), ('chg', 'G', 1, 2), ('chg', 'G', 2, 0), ('copy', 'G'),
+                                      ('upd', 'G'), ('chg', 0, 2, BIG), ('upd', 0), ('fix', 'G', [(1, None)]), ('chg', 'G', 1, 8),
+                                      ('float', 'G', [(0, ('t', 9, 0, 9))]), ('upd', 'G'), ('chg', 'G', 5, 1), ('upd', 3)]},
         # non-integer and float32-sensitive values ((2^27+1)/8 = 16777216.125) in every role
         {'src': [True, True], 'ops': [('map', fx(0, BIG), None, None), ('map', (1, BIG, -BIG, BIG + 8, None), [0], ('s', 4)),
                                       ('map', (2, 3, 1, 5, None), None, ('s', 5)), ('fix', 'G', [(1, None)]),
@@ -1429,6 +1580,52 @@ def corpus_cases():
         {'src': [True, True], 'ops': [('map', fx(0), None, None), ('map', fl(1), [1], ('s', 4)), ('map', fl(2), [0], ('s', 4)),
                                       ('fix', 'G', [(1, None)]), ('float', 'G', [(0, ('t', 1, 0, 2))])]},
     ]
+
+
+def probe_parameter_api(ctx):
+    """deterministic probes of the Parameter API outside the operation alphabet: NaN (must be rejected like any
+    value outside the bounds) and the unchecked direct attribute setters (OPEN finding C04-unchecked-setters)"""
+    from skyllh.core.parameters import Parameter, ParameterSet
+    nan = float('nan')
+
+    def must_raise(what, f):
+        ctx.count('probe:nan')
+        try:
+            f()
+        except (ValueError, TypeError):
+            return
+        ctx.violation('Parameter.value', 'nan-accepted', f'{what} accepted NaN', case={'probe': what}, impl='accepted',
+                      predicate='values outside a floating parameter\'s bounds are rejected')
+
+    must_raise('Parameter(initial=nan, 0, 1)', lambda: Parameter('a', nan, 0.0, 1.0))
+    must_raise('Parameter(0.5, valmin=nan, 1)', lambda: Parameter('a', 0.5, nan, 1.0))
+    must_raise('Parameter(0.5, 0, valmax=nan)', lambda: Parameter('a', 0.5, 0.0, nan))
+    p = Parameter('a', 0.5, 0.0, 1.0)
+    must_raise('value = nan', lambda: setattr(p, 'value', nan))
+    if not (p.value == 0.5):
+        ctx.violation('Parameter.value', 'nan-accepted', 'value changed by a rejected assignment', case={'probe': 'value = nan'})
+    q = Parameter('b', 0.5)
+    must_raise('make_floating(nan, 0, 1)', lambda: q.make_floating(nan, 0.0, 1.0))
+    must_raise('make_floating(0.5, nan, 1)', lambda: q.make_floating(0.5, nan, 1.0))
+    if not (q.isfixed and q.value == 0.5 and q.valmin is None):
+        ctx.violation('Parameter.make_floating', 'state-changed-by-rejected-operation', 'rejected make_floating modified the parameter',
+                      case={'probe': 'make_floating(nan)'})
+    s = ParameterSet([q])
+    must_raise('make_params_floating({b: (nan, 0, 1)})', lambda: s.make_params_floating({'b': (nan, 0.0, 1.0)}))
+    if not (s.n_fixed_params == 1 and s.n_floating_params == 0):
+        ctx.violation('ParameterSet.make_params_floating', 'state-changed-by-rejected-operation', 'rejected NaN request modified the set',
+                      case={'probe': 'make_params_floating(nan)'})
+    # the direct setters
+    site, kind = 'Parameter.valmin / valmax / isfixed / initial setters', 'direct-attribute-setter-unchecked'
+    r = Parameter('c', 0.5, 0.0, 1.0)
+    t = ParameterSet([r])
+    r.valmin = 0.75
+    if not (r.valmin <= r.value <= r.valmax):
+        ctx.violation(site, kind, 'p.valmin = 0.75 accepted with value 0.5', case={'probe': 'valmin setter'}, impl=(r.valmin, r.value))
+    r.isfixed = True
+    if [bool(b) for b in t.fixed_params_mask] != [bool(x.isfixed) for x in t.params]:
+        ctx.violation(site, kind, 'p.isfixed = True leaves the fixed mask of the owning set stale', case={'probe': 'isfixed setter'},
+                      impl=[bool(b) for b in t.fixed_params_mask])
 
 
 # ------------------------------------------------------------------ run / replay
@@ -1467,6 +1664,7 @@ def run_batch(ctx, batch, tag):
 
 def run(ctx):
     rng = ctx.rng
+    probe_parameter_api(ctx)
     batch = [(c, 'trace') for c in corpus_cases()]
     # bounded-exhaustive: every sequence over the alphabet up to length L, one case per distinct prefix
     lays = [[False, True], [True, False, True], [True], [False, True, True, False]]
@@ -1485,7 +1683,7 @@ def run(ctx):
     for i in range(n_rand):
         src = lay[i % len(lay)] if i < 2 * len(lay) else rng.choice(lay)
         length = rng.choice([3, 5, 6, 6, 8, 12, 18, 25])
-        ops = gen_ops(ctx, rng, src, length)
+        ops = gen_ops(ctx, rng, src, length, xops=(i % 3 == 2))
         ctx.count(f'random:len{len(ops)}')
         ctx.count('layout:' + ''.join('S' if b else 'm' for b in src))
         batch.append(({'src': src, 'ops': ops, 'nz': i % 4 == 3}, 'trace'))
